@@ -1,6 +1,9 @@
 #[cfg(tablegen_lsp_verif)]
 #[allow(unused_imports)]
 use crate::verif_hooks::std_shim as std;
+#[cfg(tablegen_lsp_verif)]
+#[allow(unused_imports)]
+use crate::verif_hooks::tokio_shim as tokio;
 use async_lsp::lsp_types;
 use ide::{
     file_system::{FileRange, FileSystem},
